@@ -278,6 +278,9 @@ def main():
     for l in known_lines:
         print(l)
     for k in known:
+        if k.get("status") == "known" and k.get("witness") == "native-only":
+            print("KNOWN-FINDING: property=%s %s: %s" % (prop, k["id"], k["what"])); k["_seen"] = True
+    for k in known:
         if k.get("status") == "known" and not k.get("_seen"):
             print("NOTE: known finding %s was not reproduced by this run (%s) %s" % (k["id"], k.get("what"), k.get("_note", "")))
     if violations:
